@@ -105,7 +105,7 @@ type Explorer struct {
 	deadline    time.Time
 	timedOut    int32
 	solverStats struct {
-		queries, sat, unsat, unknown, errors int
+		queries, sat, unsat, unknown, errors, fallbacks int
 		time                                time.Duration
 	}
 }
@@ -175,6 +175,9 @@ func (ex *Explorer) Run(nworkers int) {
 				logp = fmt.Sprintf("%s.%s.%d.smt2", ex.eng.smtLog, ex.harness, i)
 			}
 			w.solver, err = NewSolver(ex.eng.solverBin, ex.eng.solverTimeoutMs, logp, ex.eng.logic)
+			if err == nil {
+				w.solver.fallbackMs = ex.eng.fallbackMs
+			}
 			if err != nil {
 				fmt.Fprintf(os.Stderr, "cannot start solver: %v\n", err)
 				os.Exit(3)
